@@ -257,6 +257,22 @@ def op_templates():
             T["update-ids-colliding-%s-%s" % (ax, inplace)] = f_upd3
 
         for inplace in (True, False):
+            # renamings INSIDE the current label set: a swap and a rotation (an ID takes the name a later ID gives up)
+            def f_swap(t, rng, ax=ax, inplace=inplace):
+                i = ids(t, ax)
+                m = {i[0]: i[-1], i[-1]: i[0]} if len(i) > 1 else {"x": "y"}
+                r = t.update_ids(m, axis=ax, strict=False, inplace=inplace)
+                return r, [{"op": "update_ids", "axis": ax, "id_map": [[a, b] for a, b in m.items()], "strict": False}], inplace
+            T["update-ids-swap-%s-%s" % (ax, inplace)] = f_swap
+
+            def f_rot(t, rng, ax=ax, inplace=inplace):
+                i = ids(t, ax)
+                m = {i[k]: i[(k + 1) % len(i)] for k in range(len(i))} if len(i) > 2 else {"x": "y"}
+                r = t.update_ids(m, axis=ax, strict=True, inplace=inplace)
+                return r, [{"op": "update_ids", "axis": ax, "id_map": [[a, b] for a, b in m.items()], "strict": True}], inplace
+            T["update-ids-rotate-%s-%s" % (ax, inplace)] = f_rot
+
+        for inplace in (True, False):
             def f_upd4(t, rng, ax=ax, inplace=inplace):
                 i = ids(t, ax)
                 # rename the first id onto another id that keeps its name: must be refused, table untouched
@@ -400,11 +416,14 @@ def model_ops_for(events, result, receiver, inplace, extra):
     return ops + list(extra)
 
 
-def run_history(ctx, cap, templates, start_spec, route, names, impl_name, tags, profile=None):
+def run_history(ctx, cap, templates, start_spec, route, names, impl_name, tags, profile=None, sparse=False):
+    """sparse: nothing is asked of any table until the history is over (every accessor may switch the layout and
+    thereby end a sharing of arrays between tables; a user does not look after every call either)"""
     if profile:
         import biom.err as E
         with E.errstate(**profile):
-            return run_history(ctx, cap, templates, start_spec, route, names, impl_name, list(tags) + ["profile=%s" % sorted(profile.items())])
+            return run_history(ctx, cap, templates, start_spec, route, names, impl_name,
+                               list(tags) + ["profile=%s" % sorted(profile.items())], sparse=sparse)
     t = None
     cap.events.clear()
     # IDs the history may remove are probed afterwards: a removed ID must be reported unknown
@@ -413,7 +432,11 @@ def run_history(ctx, cap, templates, start_spec, route, names, impl_name, tags, 
     steps = []
     ev0 = [e for e in cap.events if e["kind"] == "ctor" and e["obj"] == id(t)]
     first_ops = model_ops_for(list(cap.events), t, None, False, [])
-    steps.append({"ops": first_ops, "obs": observe(t, probes, ctx.rng), "md": md_obs(t)})
+    pending = []
+    if sparse:
+        pending += first_ops
+    else:
+        steps.append({"ops": first_ops, "obs": observe(t, probes, ctx.rng), "md": md_obs(t)})
     log = ["start:%s" % route]
     # earlier tables of the history stay alive (a user may still hold them): they must stay coherent too,
     # e.g. when a derived table shares their ID arrays
@@ -446,6 +469,15 @@ def run_history(ctx, cap, templates, start_spec, route, names, impl_name, tags, 
             alive[:] = alive[-3:]
         t = result
         log.append(name + ("!" + err if err else ""))
+        if sparse:
+            if ops is None:
+                ctx.count("sparse-history-abandoned:no-constructor-event")
+                return True
+            pending += ops
+            if t.shape[0] == 0 or t.shape[1] == 0:
+                ctx.count("history-reached-empty-table")
+                break
+            continue
         for a in alive:
             if a is not t:
                 bystander_obs.append((len(log) - 1, observe(a, probes, ctx.rng)))
@@ -458,6 +490,18 @@ def run_history(ctx, cap, templates, start_spec, route, names, impl_name, tags, 
         if t.shape[0] == 0 or t.shape[1] == 0:
             ctx.count("history-reached-empty-table")
             break
+    if sparse:
+        # first the tables left behind (oldest first), then the current one: nothing has been asked of any of them so far
+        order = [a for a in alive if a is not t]
+        if ctx.rng.random() < 0.5:
+            steps.append({"ops": pending, "obs": observe(t, probes, ctx.rng), "md": md_obs(t)})
+            for a in order:
+                bystander_obs.append((len(log) - 1, observe(a, probes, ctx.rng)))
+        else:
+            for a in order:
+                bystander_obs.append((len(log) - 1, observe(a, probes, ctx.rng)))
+            steps.append({"ops": pending, "obs": observe(t, probes, ctx.rng), "md": md_obs(t)})
+        ctx.count("sparse-histories")
     # kernel level: the CSR walk of nonzero() against the Lean transcription, on the final table's own arrays
     if t.shape[0] > 0 and t.shape[1] > 0:
         csr = t.matrix_data.tocsr()
@@ -482,6 +526,8 @@ def run_history(ctx, cap, templates, start_spec, route, names, impl_name, tags, 
         if s["obs"].get("pairwise_obs") is None:
             s["obs"]["pairwise_obs"] = []
     case = {"start": core.spec_obs(start_spec), "route": route, "ops": names, "impl": impl_name}
+    if sparse:
+        case["sparse"] = True
     req = {"steps": [{"ops": s["ops"], "obs": s["obs"], "md": s["md"]} for s in steps], "probes": probes}
     ctx.case(case, nontrivial=len(names) >= 1)
     if bystander_obs:
@@ -496,9 +542,10 @@ def run_history(ctx, cap, templates, start_spec, route, names, impl_name, tags, 
                 return False
     r = ctx.driver.ask(req)
     for i, (s, rs) in enumerate(zip(steps, r["steps"])):
-        step_case = dict(case, step=i, log=log[:i + 1])
+        li = (len(log) - 1) if sparse else i
+        step_case = dict(case, step=i, log=log[:li + 1])
         if not rs["holds"]:
-            ctx.fail(step_case, rs["clause"], list(tags) + [impl_name, "after=" + log[i].split("!")[0]],
+            ctx.fail(step_case, rs["clause"], list(tags) + [impl_name, "after=" + log[li].split("!")[0]],
                      detail={"obs": s["obs"]})
             return False
         if not rs["model_holds"]:
@@ -506,7 +553,7 @@ def run_history(ctx, cap, templates, start_spec, route, names, impl_name, tags, 
             ctx.diverge(step_case, "model state not coherent", list(tags) + [impl_name])
             return False
         if not rs["agree"]:
-            ctx.diverge(step_case, "glue model observation differs after " + log[i], list(tags) + [impl_name],
+            ctx.diverge(step_case, "glue model observation differs after " + log[li], list(tags) + [impl_name],
                         detail={"model": rs["model"], "impl_obs": s["obs"], "impl_md": s["md"], "ops": s["ops"]})
             return False
     return True
@@ -524,7 +571,12 @@ def start_specs(rng):
     s3 = {"obs": ["é", "o b", "x/y", "zz"], "samp": ["S a", "日本"],
           "rows": [[1.0, 1.0], [0.0, 0.0], [2.0, 0.0], [0.0, 7.0]], "omd": None,
           "smd": [{"grp": "q"}, {"grp": "r"}], "type": "Taxon table"}
-    return [s1, s2, s3]
+    # canonically equivalent but distinct IDs on one axis (NFC and NFD spelling): two IDs, two positions, two vectors
+    a, b = core.NORMALISATION_PAIRS[0]
+    c, d = core.NORMALISATION_PAIRS[2]
+    s4 = {"obs": [a, "mid", b], "samp": [c, d, "s3"], "rows": [[1.0, 0.0, 3.0], [0.0, 6.0, 4.0], [2.0, 5.0, 0.0]],
+          "omd": [{"grp": "a"}, {"grp": "b"}, {"grp": "a"}], "smd": None, "type": None}
+    return [s1, s2, s3, s4]
 
 
 def run(ctx):
@@ -557,6 +609,25 @@ def run(ctx):
                 for spec in specs:
                     for a in names:
                         run_history(ctx, cap, templates, spec, "dense", [a], impl_name, ["depth1"])
+                # arrays shared between a table and a table derived from it: a deriving operation that may hand its
+                # content on unchanged, then an in-place operation on the result, and only THEN is anything asked of the
+                # two tables (sparse) — the source must still be coherent
+                if impl_name == "compiled":
+                    deriving = [n for n in names if n.startswith(("sort-", "copy", "align-to", "head", "transpose", "remove-empty-False",
+                                                                  "pa-False", "filter-pred-", "update-ids-onto-existing-",
+                                                                  "update-ids-partial-shorter-")) and not n.endswith("-True")]
+                    inplace_ops = [n for n in names if n.endswith("-True") or n.startswith(
+                        ("add-metadata", "del-metadata", "norm-inplace", "transform-zeroing-inplace", "transform-shift-inplace"))]
+                    k = 0
+                    for d in deriving:
+                        for i_op in inplace_ops:
+                            k += 1
+                            # the layout decides which axis works on the table's own arrays: CSR for observation-axis
+                            # operations, CSC for sample-axis ones
+                            rt = "csc" if "-sample" in i_op else "csr"
+                            for spec, route in (((specs[(k + ctx.seed) % 2], rt),) if ctx.quick() else
+                                                [(sp, r2) for sp in specs for r2 in ("csr", "csc")]):
+                                run_history(ctx, cap, templates, spec, route, [d, i_op], impl_name, ["shared-arrays"], sparse=True)
                 pairs = list(itertools.product(names, names))
                 if impl_name != "compiled" or ctx.quick():
                     ctx.rng.shuffle(pairs)
@@ -569,7 +640,7 @@ def run(ctx):
                         ctx.exhaustive = False
                         break
                     run_history(ctx, cap, templates, specs[k % len(specs)], core.ROUTES[k % len(core.ROUTES)], [a, b],
-                                impl_name, ["depth2"])
+                                impl_name, ["depth2"], sparse=(k % 3 == 2))
                 # histories under empty='raise': operations that empty the table raise; the caller keeps the table
                 emptying = ["filter-pred-sample-True", "filter-pred-observation-True", "remove-empty-True", "subsample-2-sample",
                             "filter-first-half-sample-True", "collapse-const-norm-min2-sample", "head", "transform-zeroing-inplace-sample"]
@@ -586,9 +657,17 @@ def run(ctx):
                     if ctx.time_left(budget * (0.8 if impl_name == "compiled" else 1.0)) < 0:
                         break
                     spec = core.gen_spec(ctx.rng, max_n=5, max_m=5, min_n=2, min_m=2, classes=("smallcount", "count"))
+                    if ctx.rng.random() < 0.25:
+                        key = ctx.rng.choice(["obs", "samp"])
+                        tw = core.twin_ids(ctx.rng, 1)
+                        if not (set(tw) & set(spec[key])):
+                            spec[key] = list(spec[key])
+                            spec[key][0], spec[key][-1] = tw[0], tw[1]
+                            ctx.count("spec-with-twin-ids")
                     L = ctx.rng.choice([3, 5, 8]) if ctx.quick() else ctx.rng.choice([5, 8, 12, 20])
                     hist = [random_op(ctx.rng, templates) for _ in range(L)]
-                    run_history(ctx, cap, templates, spec, ctx.rng.choice(core.ROUTES), hist, impl_name, ["random"])
+                    run_history(ctx, cap, templates, spec, ctx.rng.choice(core.ROUTES), hist, impl_name, ["random"],
+                                sparse=(ctx.rng.random() < 0.4))
             finally:
                 cap.uninstall()
     finally:
@@ -606,6 +685,7 @@ def replay(ctx, rec):
         spec = {"obs": case["start"]["obs"], "samp": case["start"]["samp"],
                 "rows": [[float(core.unfrac(v)) for v in r] for r in case["start"]["rows"]],
                 "omd": None, "smd": None, "type": case["start"].get("type")}
-        run_history(ctx, cap, templates, spec, case["route"], case["ops"], case.get("impl", "compiled"), ["replay"])
+        run_history(ctx, cap, templates, spec, case["route"], case["ops"], case.get("impl", "compiled"), ["replay"],
+                    sparse=bool(case.get("sparse")))
     finally:
         cap.uninstall()
